@@ -2,6 +2,7 @@ INIT Init
 NEXT Next
 CONSTANTS
   Inst = 0
+  Deep = FALSE
   Deviations = {}
   CpsMode = FALSE
 INVARIANT ResultSubsetOfBase
